@@ -51,6 +51,10 @@ SAN_ENV = {
 DEFAULT = {"variant": "asan", "adapters": True, "quick": {"shards": 8, "n": 1500, "scale": 20, "arg": 0},
            "thorough": {"shards": 16, "n": 12000, "scale": 30, "arg": 0}, "fuzz_s": 0}
 CONFIG = {
+    "C11": {"adapters": False, "variants": ["asan", "tsan"],
+            "quick": {"shards": 4, "n": 250, "scale": 2, "arg": 0, "max_size": 60},
+            "thorough": {"shards": 6, "n": 3000, "scale": 2, "arg": 0, "max_size": 80}},
+    "C20": {"enum": True, "quick": {"shards": 8, "n": 3000, "scale": 4, "arg": 0}, "thorough": {"shards": 16, "n": 30000, "scale": 4, "arg": 0}},
     "C03": {"quick": {"shards": 8, "n": 4000, "scale": 20, "arg": 10}, "thorough": {"shards": 16, "n": 25000, "scale": 40, "arg": 24}},
     "C04": {"quick": {"shards": 8, "n": 5000, "scale": 20, "arg": 10}, "thorough": {"shards": 16, "n": 30000, "scale": 40, "arg": 24}},
     "C05": {"quick": {"shards": 8, "n": 4000, "scale": 20, "arg": 10}, "thorough": {"shards": 16, "n": 25000, "scale": 40, "arg": 24}},
@@ -260,6 +264,9 @@ def replay_once(binary, path, known=(), timeout=120, case_timeout=20):
 
 def crash_signature(rc, stderr):
     """A short, stable summary of a sanitizer / assertion abort."""
+    for line in stderr.splitlines():
+        if line.startswith("POOL-STUCK"):
+            return "non-termination: worker pool provably stuck (lost wake-up)"
     if rc == -999 or rc == 88:
         return "non-termination (case watchdog)"
     for line in stderr.splitlines():
@@ -276,7 +283,8 @@ def crash_signature(rc, stderr):
 
 
 def is_crash(rc):
-    return rc not in (0, 1, 2)
+    # 89 = "slow without a provably stuck state": inconclusive by design, never a violation
+    return rc not in (0, 1, 2, 89)
 
 
 def shrink_crash(binary, data, sig, budget_s=60, known=()):
@@ -351,6 +359,22 @@ def run_shard(binary, pid, seed, shard, tcfg, outdir, known, extra_args=()):
     return {"shard": shard, "rc": rc, "stderr": se[-20000:], "out": out, "wall": time.time() - t0}
 
 
+def run_enum_shard(binary, pid, k, nshards, total, outdir, known, tcfg):
+    out = os.path.join(outdir, "enum_%d.json" % k)
+    lo = total * k // nshards
+    hi = total * (k + 1) // nshards
+    cmd = [binary, "--enum", "--from", str(lo), "--to", str(hi), "--case-timeout", str(tcfg.get("case_timeout", 30)), "--out", out]
+    if known:
+        cmd += ["--known", ",".join(known)]
+    t0 = time.time()
+    try:
+        r = subprocess.run(cmd, stdout=subprocess.PIPE, stderr=subprocess.PIPE, text=True, errors="replace", env=env_for_run(), timeout=3000)
+        rc, se = r.returncode, r.stderr
+    except subprocess.TimeoutExpired:
+        rc, se = -999, "TIMEOUT"
+    return {"shard": 1000 + k, "rc": rc, "stderr": se[-20000:], "out": out, "wall": time.time() - t0, "enum": (lo, hi)}
+
+
 def merge_shards(results):
     agg = {"evaluations": 0, "passed": 0, "nontrivial": 0, "discards": 0, "labels": {}, "discard_reasons": {},
            "known_excluded": {}, "hashes": set(), "samples": [], "violations": [], "distinct_all": 0}
@@ -375,6 +399,7 @@ def merge_shards(results):
         if d.get("violation"):
             v = d["violation"]
             v["shard"] = r["shard"]
+            v["binary"] = r.get("binary")
             agg["violations"].append(v)
     return agg
 
@@ -436,11 +461,13 @@ def check(pid, tier):
     cfg = conf(pid)
     tcfg = cfg[tier]
     meta = load_meta(pid)
-    binary = build(pid)
+    variants = cfg.get("variants", [cfg["variant"]])
+    binaries = {v: build(pid, v) for v in variants}
+    binary = binaries[variants[0]]
     known_all = [k for k in load_known() if k.get("property") == pid]
     known = [k["matcher"] for k in known_all if k.get("status") == "known"]
     violations = []   # (path, summary)
-    printed = []
+    notes = []
 
     # 1. known findings: replay and report while they still fail
     for k in known_all:
@@ -449,83 +476,120 @@ def check(pid, tier):
         rp = os.path.join(VERIF, k["replay"])
         rc, so, se = replay_once(binary, rp, ())  # without the matcher: must still fail
         if rc == 1 or is_crash(rc):
-            line = "KNOWN-FINDING: property=%s %s" % (pid, k["what"])
-            print(line)
-            printed.append(line)
+            print("KNOWN-FINDING: property=%s %s" % (pid, k["what"]))
         else:
             print("NOTE: known finding %s no longer reproduces (input %s passes)" % (k["id"], k["replay"]))
 
-    # 2. regression corpus (includes inputs of fixed findings): plain replays
+    # 2. regression corpus (includes inputs of fixed findings): plain replays on every variant
     corpus = sorted(glob.glob(os.path.join(VERIF, "corpus", pid, "*.bin")))
     corpus_runs = 0
     for cp in corpus:
-        rc, so, se = replay_once(binary, cp, known)
-        corpus_runs += 1
-        if rc == 1 or is_crash(rc):
-            ok, last = confirm_violation(binary, cp, known)
-            if ok:
-                violations.append((cp, "corpus input fails: " + (so.strip().splitlines()[-1] if so.strip() else crash_signature(rc, se))))
+        for v in variants:
+            rc, so, se = replay_once(binaries[v], cp, known)
+            corpus_runs += 1
+            if rc == 1 or is_crash(rc):
+                ok, last = confirm_violation(binaries[v], cp, known)
+                if ok:
+                    lines = [l for l in so.strip().splitlines() if l.startswith("RESULT")]
+                    violations.append((cp, "corpus input fails (%s): %s" % (v, lines[-1] if lines else crash_signature(rc, se))))
+                    break
 
-    # 3. generated search
+    # 3. generated search (+ complete enumeration where the property defines one)
     outdir = os.path.join(BUILD_ROOT, "run-%s-%d" % (pid, os.getpid()))
     shutil.rmtree(outdir, ignore_errors=True)
     os.makedirs(outdir)
+    enum_total = 0
+    enum_results = []
+    if cfg.get("enum"):
+        enum_total = int(subprocess.run([binary, "--enum-count"], stdout=subprocess.PIPE, text=True, env=env_for_run()).stdout.strip() or "0")
+        with ThreadPoolExecutor(max_workers=NCPU) as ex:
+            enum_results = list(ex.map(lambda k: run_enum_shard(binary, pid, k, NCPU, enum_total, outdir, known, tcfg), range(NCPU)))
+        for r in enum_results:
+            r["binary"] = binary
+    jobs = []
+    for vi, v in enumerate(variants):
+        for sh in range(tcfg["shards"]):
+            jobs.append((binaries[v], vi * 100 + sh, v))
     with ThreadPoolExecutor(max_workers=NCPU) as ex:
-        results = list(ex.map(lambda s: run_shard(binary, pid, seed, s, tcfg, outdir, known), range(tcfg["shards"])))
+        results = list(ex.map(lambda j: run_shard(j[0], pid, seed, j[1], tcfg, outdir, known), jobs))
+    for r, j in zip(results, jobs):
+        r["binary"] = j[0]
+        r["variant"] = j[2]
+    results = enum_results + results
     agg = merge_shards(results)
-    crashes = []
-    for r in results:
-        if is_crash(r["rc"]):
-            cur = r["out"] + ".current"
-            data = open(cur, "rb").read() if os.path.exists(cur) else b""
-            crashes.append((r, data))
-    # semantic violations found (already shrunk in-process by rapidcheck)
+    dead = [r for r in results if is_crash(r["rc"])]
+    inconclusive = [r for r in results if r["rc"] == 89]
+    for r in inconclusive:
+        notes.append("shard %d: slow without a provably stuck state (inconclusive, not a violation)" % r["shard"])
+
+    # semantic violations (already shrunk in-process by rapidcheck): confirm 3x in fresh processes
+    reported = set()
     for v in agg["violations"][:3]:
         data = bytes.fromhex(v["bytes_hex"])
         p = save_replay(pid, data, "viol")
-        ok, last = confirm_violation(binary, p, known)
+        if p in reported:
+            continue
+        reported.add(p)
+        ok, last = confirm_violation(v["binary"], p, known)
         if ok:
             violations.append((p, "%s: %s | case: %s" % (v["kind"], v["detail"][:400], v["desc"][:600])))
         else:
-            print("NOTE: a generated failure did not reproduce 3/3 in fresh processes (not reported): %s" % p)
-    # crashes: shrink out of process, confirm
+            notes.append("a generated failure did not reproduce 3/3 in fresh processes (not reported): %s (%s)" % (p, v["kind"]))
+    # dead shards (sanitizer report, assertion, watchdog): shrink out of process, confirm
     seen_sig = set()
-    for r, data in crashes[:4]:
+    for r in dead:
+        cur = r["out"] + ".current"
+        data = open(cur, "rb").read() if os.path.exists(cur) else b""
         sig = crash_signature(r["rc"], r["stderr"])
-        if sig in seen_sig:
+        if r["rc"] == -999:
+            notes.append("shard %d exceeded its overall time budget (inconclusive, not a violation)" % r["shard"])
+            continue
+        if sig in seen_sig or len(seen_sig) >= 3:
             continue
         seen_sig.add(sig)
-        if r["rc"] == -999:
-            print("NOTE: shard %d exceeded its overall time budget (inconclusive, not a violation)" % r["shard"])
-            continue
+        b = r["binary"]
         p0 = save_replay(pid, data, "crash-raw")
-        rc, so, se = replay_once(binary, p0, known)
+        rc, so, se = replay_once(b, p0, known)
         if not is_crash(rc):
-            print("NOTE: shard %d died (%s) but its last input does not reproduce alone: %s" % (r["shard"], sig, p0))
-            sys.stderr.write(r["stderr"][-3000:] + "\n")
-            # still a failure of the run: report with the raw input
-            violations.append((p0, "process died: %s (input does not reproduce in isolation)" % sig))
+            # the process died, but not because of this input alone (schedule-dependent, or state
+            # leaked from earlier cases): still a failure of the run, reported with what we have
+            sys.stderr.write(r["stderr"][-4000:] + "\n")
+            violations.append((p0, "process died: %s (the last input alone does not reproduce it; output above)" % sig))
             continue
         sig = crash_signature(rc, se)
-        small = shrink_crash(binary, data, sig, budget_s=45 if tier == "quick" else 120, known=known)
+        small = shrink_crash(b, data, sig, budget_s=45 if tier == "quick" else 120, known=known)
         p = save_replay(pid, small, "crash")
-        os.remove(p0) if p0 != p and os.path.exists(p0) else None
-        ok, last = confirm_violation(binary, p, known)
-        rc2, so2, se2 = replay_once(binary, p, known)
+        if p0 != p and os.path.exists(p0):
+            os.remove(p0)
+        ok, last = confirm_violation(b, p, known)
+        rc2, so2, se2 = replay_once(b, p, known)
         desc = ""
         for line in so2.splitlines():
             if line.startswith("CASE "):
-                desc = line[5:600]
+                desc = line[5:700]
         if ok:
-            violations.append((p, "memory/UB/assert: %s | case: %s" % (sig, desc)))
+            violations.append((p, "%s | case: %s" % (sig, desc)))
+        else:
+            sys.stderr.write(r["stderr"][-4000:] + "\n")
+            violations.append((p, "process died: %s (reproduces only sometimes; output above) | case: %s" % (sig, desc)))
     shutil.rmtree(outdir, ignore_errors=True)
 
     agg["evaluations"] += corpus_runs
-    extra = {"shards": tcfg["shards"], "cases_per_shard": tcfg["n"], "corpus_replays": corpus_runs,
-             "sanitizers": VARIANTS[cfg["variant"]], "build": os.path.basename(os.path.dirname(binary)),
-             "crashed_shards": len(crashes)}
+    expected = tcfg["shards"] * len(variants) * tcfg["n"] + enum_total
+    extra = {"shards": tcfg["shards"] * len(variants), "cases_per_shard": tcfg["n"], "corpus_replays": corpus_runs,
+             "variants": {v: VARIANTS[v] for v in variants}, "build": [os.path.basename(os.path.dirname(binaries[v])) for v in variants],
+             "dead_shards": len(dead), "inconclusive_shards": len(inconclusive), "planned_cases": expected,
+             "shard_exit_codes": [r["rc"] for r in results]}
+    if cfg.get("enum"):
+        enum_done = all(r["rc"] == 0 for r in enum_results)
+        extra["enumerated_cases"] = enum_total
+        extra["enumeration_complete"] = enum_done
+        extra["exhaustive"] = bool(enum_done and enum_total > 0)
+        extra["exhaustive_scope"] = "the enumerated sub-space described in rule (generated cases beyond it are sampled)"
     write_evidence(pid, tier, seed, meta.get("level", "exploration"), agg, time.time() - t0, meta["rule"], meta["assumptions"],
                    len(violations), extra)
+    for n_ in notes:
+        print("NOTE: " + n_)
     for p, summary in violations:
         print("VIOLATION property=%s replay=%s" % (pid, p))
         print("  " + summary)
